@@ -90,7 +90,12 @@ C19All(u) ==
     \cup { C19Http(pr, 3, port, IF pr[3] THEN T6 ELSE T4) : pr \in Protos, port \in PortVals }
     \cup { C19Http(<<pp, m, FALSE>>, 3, 443, T4) : pp \in {"udp", "tcp", "icmp", "UDP", "sctp"}, m \in {"syn", "sack", "prefer_sack", "syn_socket", "x"} }
     \cup { C19Http(pr, 3, 33434, hr.h) : pr \in {<<"udp", "", FALSE>>, <<"icmp", "", FALSE>>}, hr \in {r \in HostTable : r.h # ""} }
-    \cup { C19Scen(pr, 1, 3, 0, hr.h, "host") : pr \in {<<"udp", "", FALSE>>, <<"tcp", "syn", FALSE>>, <<"icmp", "", FALSE>>}, hr \in HostTable }
+    \cup { C19Scen(pr, 1, 3, 0, hr.h, "host") : pr \in {<<"udp", "", FALSE>>, <<"tcp", "syn", FALSE>>, <<"icmp", "", FALSE>>}, hr \in HostTable \cup Unroutable }
+    \cup { C19Http(pr, 3, 33434, hr.h) : pr \in {<<"udp", "", FALSE>>, <<"icmp", "", FALSE>>}, hr \in Unroutable }
+    \* the protocol / method lattice again for requests that consist of end-to-end probes only, or of both kinds
+    \cup { [C19Scen(<<p, m, FALSE>>, 1, 3, 443, T4, "proto") EXCEPT !.id = @ \o "/q" \o ToString(qe[1]) \o "e" \o ToString(qe[2]), !.label = @ \o "/q" \o ToString(qe[1]) \o "e" \o ToString(qe[2]),
+                                                                     !.run.queries = qe[1], !.run.e2e = qe[2]]
+            : p \in {"udp", "tcp", "icmp", "sctp"}, m \in {"", "syn", "sack", "prefer_sack", "syn_socket", "SYN", "x"}, qe \in {<<0, 1>>, <<0, 2>>, <<1, 1>>} }
 
 ---------------------------------------------------------------------------
 (* C20: TCP method x target capability x injected failure; the expectation is TcpPolicy!Code *)
